@@ -48,6 +48,7 @@ pub enum O {
 }
 
 pub fn observe(reg: &PortableRegistry, id: u32, format: bool) -> O {
+    crate::util::inflight(&serde_json::json!({"ids": [id], "format": format}));
     match std::panic::catch_unwind(std::panic::AssertUnwindSafe(|| type_description(id, reg, format))) {
         Ok(Ok(s)) => O::Ok(s),
         Ok(Err(e)) => O::Err(e.to_string()),
@@ -609,6 +610,7 @@ fn hash_str(s: &str) -> u64 {
 impl Ctx {
     /// observe the given ids of one registry and push them in groups
     fn push_registry(&mut self, stream: &str, reg: &PortableRegistry, reg_json: Value, ids: &[u32], group: usize) {
+        crate::util::inflight_ctx(&serde_json::json!({"registry": reg_json}));
         let reg_coq = crate::regprint::registry(reg);
         let rh = hash_str(&reg_coq);
         for chunk in ids.chunks(group.max(1)) {
